@@ -102,3 +102,32 @@ class World:
 
     def destroy(self):
         self.sb.destroy()
+
+
+def correspondence(chk, res, replay, control=True, publish=True):
+    """model-vs-implementation comparisons on one real run; returns the number of disagreements"""
+    from . import observe
+    from core.driver import driver
+    n = 0
+    for url, r in res.obs.repos.items():
+        if control and r["result"] is not None:
+            for d in observe.control_disagreements(r):
+                n += 1
+                chk.violation("correspondence-control", {"scenario": replay, "disagreement": d,
+                              "correspondence": "Model/Control.lean mirrorControl vs RepositoryMirror.mirror()"}, d, no_input=True)
+            chk.count("control_traces_compared")
+        if publish and r.get("publish"):
+            d = observe.publish_disagreements(r["publish"])
+            if d:
+                n += 1
+                chk.violation("correspondence-publish", {"scenario": replay, "disagreement": d,
+                              "correspondence": "Model/Publish.lean moveOps vs RepositoryMirror.move_metadata"}, d, no_input=True)
+            if d is not None:
+                chk.count("publish_op_sequences_compared")
+    if control and res.exit in (0, 1) and res.obs.repos and all(r["result"] is not None for r in res.obs.repos.values()):
+        m = driver().call("exit", results=[r["result"] for r in res.obs.repos.values()])
+        if m != res.exit:
+            n += 1
+            chk.violation("correspondence-exit", {"scenario": replay, "disagreement": f"exit real={res.exit} model={m}",
+                          "correspondence": "Model/Control.lean exitStatus vs APTMirror.run()"}, f"exit real={res.exit} model={m}", no_input=True)
+    return n
